@@ -210,7 +210,8 @@ impl Packed {
     pub fn pop_msb(&mut self, bits: u32) -> Option<usize> {
         let s = self.get();
         // Remove value from self
-        Self::new(s << bits).map(|new| {
+        // `bits >= Self::BITS` can never be popped (and would overflow the shift)
+        Self::new(s.checked_shl(bits)?).map(|new| {
             *self = new;
             // Extract value from old self
             // Done in two steps as bits + 1 can be Self::BITS which would wrap.
@@ -226,10 +227,11 @@ impl Packed {
     /// * `bits`: Number of bits to push. `bits <= Self::CAPACITY`
     /// * `value`: Value to push. `value >> bits == 0`
     pub fn push_lsb(&mut self, bits: u32, value: usize) -> Option<u32> {
-        debug_assert_eq!(value >> bits, 0);
+        debug_assert_eq!(value.checked_shr(bits).unwrap_or_default(), 0);
         let mut n = self.trailing_zeros();
-        let old_marker = 1 << n;
-        Self::new(old_marker >> bits).map(|new_marker| {
+        let old_marker = 1usize << n;
+        // `bits >= Self::BITS` can never fit (and would overflow the shift)
+        Self::new(old_marker.checked_shr(bits)?).map(|new_marker| {
             n -= bits;
             // * Remove old marker
             // * Add value at offset n + 1
